@@ -8,3 +8,5 @@ import TsVerif.C10.Props
 #print axioms TsVerif.C10.edit_preserves_tiling
 #print axioms TsVerif.C10.edits_preserve_tiling
 #print axioms TsVerif.C10.wfbCheck_sound
+#print axioms TsVerif.C10.edit_marks
+#print axioms TsVerif.C10.laokCheck_sound
